@@ -40,7 +40,7 @@ fn main() {
         "families" => {
             let reg = sim::registry::build();
             for f in &reg.families {
-                println!("{} {} block={} split={}", f.name, f.krate, f.block, f.split);
+                println!("{} {} block={} split={} variants={}", f.name, f.krate, f.block, f.split, f.variants.iter().map(|v| v.variant).collect::<Vec<_>>().join(","));
             }
         }
         "worker" => worker(&args),
@@ -57,7 +57,7 @@ fn main() {
             let par: usize = arg(&args, "--par").and_then(|s| s.parse().ok()).unwrap_or_else(|| die("--par"));
             let out = arg(&args, "--out").unwrap_or_else(|| die("--out"));
             let c = if args.iter().any(|a| a == "--sweep") {
-                sim::engine::target_sweep_case(&reg, fam, seed)
+                sim::engine::target_sweep_case(&reg, fam, seed, var)
             } else if args.iter().any(|a| a == "--routes") {
                 sim::engine::target_route_case(&reg, fam, var, false, seed)
             } else {
@@ -978,6 +978,10 @@ fn cold_phase(prop: Prop, seed: u64, total: u64, workers: u64, known_path: &str,
 
 /// Cross-check the five-intrinsic aarch64 model against this host's AES-NI instructions.
 fn selftest_model() {
+    match sim::workload::schedule_twin::selftest() {
+        Ok(()) => println!("selftest-model: AES schedule-twin key generator agrees with FIPS-197 A.2/A.3 and inverts"),
+        Err(e) => die(&format!("schedule-twin selftest: {}", e)),
+    }
     #[cfg(target_arch = "x86_64")]
     {
         use core::arch::x86_64::*;
